@@ -19,7 +19,22 @@ func (m *mockTS) AgentUpdate(agent *Agent)                  {}
 func (m *mockTS) Died(a *Agent)                             { m.died = append(m.died, a) }
 func (m *mockTS) ParentOf(a *Agent) (int, error)            { return 0, nil }
 func (m *mockTS) LinksOf(a *Agent) []int                    { return nil }
-func (m *mockTS) LinkRemove(p *Agent, l *Agent, u bool)     { m.unlinks = append(m.unlinks, [2]string{p.NameID, l.NameID}) }
+func (m *mockTS) LinkRemove(p *Agent, l *Agent, u bool) {
+	// mirrors (*server.Teamserver).LinkRemove
+	m.unlinks = append(m.unlinks, [2]string{p.NameID, l.NameID})
+	l.Active = false
+	if l.Pivots.Parent == p {
+		l.Pivots.Parent = nil
+	}
+	if u {
+		for i := range p.Pivots.Links {
+			if p.Pivots.Links[i].NameID == l.NameID {
+				p.Pivots.Links = append(p.Pivots.Links[:i], p.Pivots.Links[i+1:]...)
+				break
+			}
+		}
+	}
+}
 func (m *mockTS) LinkAdd(p *Agent, l *Agent) error          { m.links = append(m.links, [2]string{p.NameID, l.NameID}); return nil }
 func (m *mockTS) AgentHasDied(a *Agent) bool                { return false }
 func (m *mockTS) AgentAdd(a *Agent) []*Agent                { m.agents = append(m.agents, a); return m.agents }
